@@ -9,6 +9,9 @@ almost never intended in this code base; the few instances on the reviewed tree 
   twin-initialiser    two locals of one block initialised by the same parameterless getter on the same object
   parallel-copy       the statements of one block that copy an element of several parallel arrays into position d read different
                       source positions
+  narrow-accumulate   std::accumulate seeded with an int (float) literal whose result is used as a wider type
+  stale-cursor        a loop steps one pointer cursor while it dereferences a second pointer (the start of another array) that
+                      is never advanced
 Each lint carries a positive control that must be recognised on every run."""
 import json
 import os
@@ -231,6 +234,63 @@ def twin_initialiser_nodes(fn):
     return out
 
 
+def stale_cursor_nodes(fn):
+    """a loop that steps one pointer cursor over an array while it dereferences a second pointer - initialised from the start of
+    another array (`X.data()`, `X.begin()`, an array parameter) - that is never advanced in the loop: every iteration reads element 0
+    of the second array"""
+    out = []
+    decls = {}
+    walk(fn.get("body"), lambda n: [decls.__setitem__(v["d"], v) for v in n.get("vars", []) if "d" in v] if n.get("k") == "Decl" else None)
+
+    def ptr(t):
+        return (t or "").replace("const", "").replace(" ", "").endswith("*")
+
+    def lv(L):
+        if L.get("k") not in ("For", "While", "Do"):
+            return
+        stepped, derefs = set(), []
+
+        def sv(n):
+            if n.get("k") == "Un" and n.get("op") in ("++", "--") and strip_all(n.get("e") or {}).get("k") == "Ref" and ptr(strip_all(n["e"]).get("t")):
+                stepped.add(strip_all(n["e"])["d"])
+            if n.get("k") == "Assign" and strip_all(n.get("l") or {}).get("k") == "Ref" and ptr(strip_all(n["l"]).get("t")):
+                stepped.add(strip_all(n["l"])["d"])
+            if n.get("k") == "Un" and n.get("op") == "*" and strip_all(n.get("e") or {}).get("k") == "Ref" and ptr(strip_all(n["e"]).get("t")):
+                derefs.append(strip_all(n["e"]))
+        walk(L.get("b"), sv)
+        walk(L.get("inc") or {}, sv)
+        if not stepped:
+            return
+        for q in derefs:
+            if q["d"] in stepped or q.get("dk") != "local" or q["d"] not in decls:
+                continue
+            ini = strip_all(decls[q["d"]].get("init") or {})
+            if ini.get("k") == "Call" and ini.get("cname") in ("data", "begin", "cbegin") and not ini.get("args"):
+                out.append((L, q))
+    walk(fn.get("body"), lv)
+    return out
+
+
+def narrow_accumulate_nodes(fn):
+    """std::accumulate / std::reduce / std::inner_product whose accumulator type comes from an `int` (or float) initial value although
+    the result is used as a wider type: the partial sums are kept in the narrow type (truncated to 32 bits / to float / to an
+    integer) however wide the elements and the binary operation are"""
+    from astu import walkp
+    out = []
+
+    def v(n, ps):
+        if n.get("k") == "Call" and n.get("cname") in ("accumulate", "reduce", "inner_product") and (n.get("callee") or "").startswith("std::"):
+            rt = (n.get("t") or "").replace("const ", "")
+            par = ps[-1] if ps else {}
+            if par.get("k") == "Cast" and par.get("impl") and par.get("ck") in ("IntegralToFloating", "IntegralCast", "FloatingCast"):
+                wt = (par.get("t") or "").replace("const ", "")
+                wide = {"int": ("double", "float", "long", "unsigned long", "long long", "unsigned long long"), "unsigned int": ("double", "long", "unsigned long", "unsigned long long"), "float": ("double",)}
+                if wt in wide.get(rt, ()):
+                    out.append((n, rt, wt))
+    walkp(fn.get("body"), v)
+    return out
+
+
 def hazards(facts, fams=None):
     fns = functions_by(facts)
     _BY_PAT.clear()
@@ -259,6 +319,10 @@ def hazards(facts, fams=None):
             found.append(("twin-initialiser", "%s:%s" % (base, v2.get("n")), v2.get("loc"), "`%s` and `%s` are both initialised with `%s`: one of two sibling values is read from the wrong object (sizes, counts or thetas of the two operands get mixed up)" % (v1.get("n"), v2.get("n"), t)))
         for di, items in parallel_copy_nodes(fn):
             found.append(("parallel-copy", base, items[0][0].get("loc"), "the element copied into position `%s` is read from different source positions (%s) in the statements of one block: parallel arrays (items / weights / marks) get out of step" % (di, ", ".join(sorted(set(x[1] for x in items))))))
+        for n, rt, wt in narrow_accumulate_nodes(fn):
+            found.append(("narrow-accumulate", base, n.get("loc"), "std::%s accumulates in `%s` (the type of its initial value) and the result is then widened to `%s`: the partial sums are truncated to the narrow type, whatever the element type and the binary operation return (e.g. a total weight above 2^31 wraps)" % (n.get("cname"), rt, wt)))
+        for L, q in stale_cursor_nodes(fn):
+            found.append(("stale-cursor", "%s:%s" % (base, q.get("n")), L.get("loc"), "the loop steps a pointer over one array but dereferences `%s` (the start of another array) without ever advancing it: every iteration reads element 0 of that array instead of the element that corresponds to the current position" % q.get("n")))
         cnt = {}
         for rule, key, loc, detail in found:
             k0 = "%s:%s" % (rule, key)
@@ -269,7 +333,7 @@ def hazards(facts, fams=None):
                 out.append(ob("lint.hazard", k, loc or fn["pat"], "info", "reviewed instance: %s" % exc[k], fn["qname"]))
             else:
                 out.append(ob("lint.hazard", k, loc or fn["pat"], "violated", detail, fn["qname"]))
-    out.append(ob("lint.hazard", "all:functions-scanned", "", "discharged", "%d functions scanned for 7 hazard patterns" % scanned, ""))
+    out.append(ob("lint.hazard", "all:functions-scanned", "", "discharged", "%d functions scanned for 9 hazard patterns" % scanned, ""))
     # positive controls
     ctl_fn = {"body": {"k": "Block", "s": [
         {"k": "Expr", "e": {"k": "Call", "cname": "f", "callee": "datasketches::f", "args": [{"k": "Cast", "impl": True, "ck": "IntegralCast", "from": "unsigned long", "t": "unsigned int", "e": {"k": "Ref", "n": "seed", "d": 1, "dk": "param", "t": "unsigned long"}}]}},
